@@ -41,7 +41,7 @@ WHAT = {
     "P9": "tag lines are read word by word: '@word' -> tag 'word' (any characters), '#word' starts a comment, anything else is a ParserError",
     "P10": "every parse_* entry point can return a model for some text (it is not dead)",
     "E8": "model constructors / add_* called by the parser with file text contain no assertion over that text (only type checks)",
-    "E7": "no regular expression the parser applies to a line of the file is exponentially ambiguous (a backtracking matcher would need time exponential in the line length: parsing would not end)",
+    "E10": "no regular expression the parser applies to a line of the file is exponentially ambiguous (a backtracking matcher would need time exponential in the line length: parsing would not end)",
     "E9": "building the error message cannot itself fail: braces, percent signs and format fields in the offending text are copied, never interpreted",
     "E4": "every ParserError raised by the parser carries the current line",
     "E6": "parser terminates: no while loop; only call cycle is action_table <-> action_steps",
@@ -700,9 +700,9 @@ def regex_literals(ix, mod):
     return out
 
 
-def check_regex_ambiguity(chk, ix, modules=("behave.parser",), rule="E7", floor=2):
+def check_regex_ambiguity(chk, ix, modules=("behave.parser",), rule="E10", floor=2):
     from . import regex_amb
-    chk.rule(rule, WHAT["E7"])
+    chk.rule(rule, WHAT["E10"])
     for ctl, want in ((r"(a+)+$", True), (r"^\|((?:[^|]|\\\|)*\|)*$", True), (r"^(|.+)\|$", False)):
         r = regex_amb.analyse(ctl)
         if r is None or r["eda"] is not want:
@@ -1165,30 +1165,49 @@ def check_reset_clears(chk, ix):
                          "state" % missing, file=reset.file, line=reset.lineno, stmt="def reset"))
     else:
         chk.ok("E7", {"fields_reset": sorted(a_reset)}, nontrivial_key="reset fields")
-    for f in pc.methods.values():
-        loops = [n for n in ast.walk(f.node) if isinstance(n, ast.For) and "splitlines" in unparse(n.iter)]
-        for lp in loops:
-            chk.instance("E7")
-            # dead code after a return is ignored
-            body = f.node.body
-            reach = []
-            for st_ in body:
-                reach.append(st_)
-                if isinstance(st_, ast.Return):
-                    break
-            if not any(lp in list(ast.walk(s_)) for s_ in reach):
-                chk.ok("E7", None, nontrivial_key=("dead loop", f.name))
-                continue
-            before = []
-            for s_ in reach:
-                if lp in list(ast.walk(s_)):
-                    break
-                before.append(s_)
-            has_reset = any(isinstance(n, ast.Call) and unparse(n.func) == "self.reset" for s_ in before for n in ast.walk(s_))
-            if has_reset:
-                chk.ok("E7", {"function": f.name, "reset_before_line_loop": True}, nontrivial_key=("loop", f.name))
-            else:
-                chk.fail(Finding("E7", f.fullname, "line loop without preceding reset()",
-                                 "%s runs its line loop without calling self.reset() first" % f.name,
-                                 file=f.file, line=lp.lineno))
+    # every public way of feeding text to a Parser object resets it before the first line is looked at - evaluated: reset()
+    # and action() record the order in which they are reached
+    for meth in ("parse", "parse_steps"):
+        f = pc.lookup(meth)
+        if f is None:
+            raise AnalysisError("anchor missing: Parser.%s" % meth)
+        order = []
+        noop = lambda i, s_, a, k, n_: [(s_, "val", None)]      # noqa: E731
+
+        def reset_stub(i, s_, a, k, n_):
+            order.append("reset")
+            s_.wobj(a[0]).fields.update({"line": 0, "table": None, "state": EnumVal("State", "INIT"), "statement": None, "feature": None})
+            return [(s_, "val", None)]
+
+        def build_scn(i, s_, a, k, n_):
+            s_.wobj(a[0]).fields["statement"] = s_.alloc(HObj("ScnTok", {"steps": ()}, open=True))
+            return [(s_, "val", None)]
+        it = Interp(ix, stubs={"Parser.action": lambda i, s_, a, k, n_: (order.append("action"), [(s_, "val", None)])[1], "Parser.reset": reset_stub,
+                               "Parser._build_scenario_statement": build_scn, "Parser.action_table": noop,
+                               "model.Scenario": lambda i, s_, a, k, n_: [(s_, "val", s_.alloc(HObj("ScnTok", {"steps": ()}, open=True)))],
+                               "Scenario": lambda i, s_, a, k, n_: [(s_, "val", s_.alloc(HObj("ScnTok", {"steps": ()}, open=True)))]},
+                    name="Parser.%s: reset before the first line" % meth)
+        it.int_sat = 1000
+        it.list_cap = 100
+        st = State()
+        st.frames = []
+        stale = st.alloc(HObj("TableTok", {}, open=True, label="stale table of an earlier parse"))
+        me = st.alloc(HObj(pc, {"line": 99, "language": "en", "state": EnumVal("State", "TABLE"), "table": stale, "filename": "old.feature",
+                                "keywords": st.alloc(HObj("dict", kind="dict", items=[("scenario", st.alloc(HObj("list", kind="list", items=["Scenario"])))])),
+                                "statement": None, "feature": None}, label="re-used parser"))
+        try:
+            outs = it.call_function(st, f, ["Given a step\n\nWhen another"] + (["x.feature"] if len(f.node.args.args) > 2 else []), {}, None, self_val=me)
+        except AnalysisError as e:
+            raise AnalysisError("Parser.%s not evaluable on a re-used parser: %s" % (meth, e))
+        chk.absorb(it)
+        chk.instance("E7")
+        if not outs or any(k != "val" for _, k, _v in outs) or "action" not in order:
+            raise AnalysisError("Parser.%s not evaluable on a re-used parser: %r, events %r" % (meth, [(k, v) for _, k, v in outs][:3], order[:6]))
+        if order[0] == "reset":
+            chk.ok("E7", {"entry": meth, "first": "reset()", "then": "the lines"}, nontrivial_key=("reset-first", meth))
+        else:
+            chk.fail(Finding("E7", f.fullname, "%s: %s before reset" % (meth, order[0]),
+                             "Parser.%s() on a parser object that was used before looks at the first line before reset() has run (order: %s): "
+                             "left-over state of the earlier parse (a table, a doc-string, the line counter) leaks into this one" % (meth, order[:4]),
+                             file=f.file, line=f.lineno, stmt="def " + meth))
     chk.require_instances("E7", 2)
